@@ -110,6 +110,40 @@ class FakeSecrets:
         return b
 
 
+    # the rest of the ``secrets`` API, all drawing from token_bytes so that
+    # what was taken from the source stays accounted for
+    DEFAULT_ENTROPY = 32
+
+    def token_hex(self, n=None):
+        return self.token_bytes(n or self.DEFAULT_ENTROPY).hex()
+
+    def token_urlsafe(self, n=None):
+        import base64
+        return base64.urlsafe_b64encode(self.token_bytes(
+            n or self.DEFAULT_ENTROPY)).rstrip(b'=').decode('ascii')
+
+    def randbits(self, k):
+        nb = (k + 7) // 8
+        return int.from_bytes(self.token_bytes(nb), 'big') >> (nb * 8 - k) \
+            if k > 0 else 0
+
+    def randbelow(self, n):
+        k = max(1, (n - 1).bit_length())
+        for _ in range(64):
+            r = self.randbits(k)
+            if r < n:
+                return r
+        return 0
+
+    def choice(self, seq):
+        return seq[self.randbelow(len(seq))]
+
+    @staticmethod
+    def compare_digest(a, b):
+        import hmac
+        return hmac.compare_digest(a, b)
+
+
 class Request:
     """One HTTP exchange (or one WebSocket opening request)."""
     _fields = ('rid', 'cidx', 'kind', 'method', 'path', 'query', 'headers',
